@@ -178,3 +178,14 @@ CHECKS["C16"] = dict(
     assumptions=E4_ASSUME,
     units=[dict(pkg="matcher/compat", test="TestVerifC16", shards_quick=16, shards_thorough=16, budget_quick=100, budget_thorough=1500)],
 )
+
+CHECKS["C15"] = dict(
+    level="exploration",
+    engine="enumx+seqx",
+    rule="predicate: the full product of field alphabets (5 time-range x 4 weekday x 12 day-of-month incl. every negative/mixed form x 5 month x 3 year x 7 locations = 25200 interval specs, parsed through the real YAML path) x a grid of instants (13-min (quick) / 3-min (thorough) over 2023-12-25..2025-03-05, a 1-minute grid +-3h around every zone transition 2019-2030, the 2011 Apia date-line skip). gating: event sequences on the real App with mute / active intervals around the virtual clock. distinct = sampled spec classes x {true,false}",
+    technique="bounded-exhaustive enumeration of interval specs x instants against an independent civil-calendar reference; bounded-exhaustive event sequences for the gating",
+    level_text="ContainsTime equals own civil-date arithmetic (days-from-epoch algorithm, own month lengths / leap years; only the zone offset is taken from package time) for every spec and instant: start-inclusive/end-exclusive minutes, inclusive weekday/day/month/year ranges, negative days from the month's end, ranges beyond the month, leap day, DST transitions in both directions, half-hour zones, a skipped civil day; every accepted spec re-marshals to the same value. Gating on the real App: no delivery at muted flush ticks, deliveries at unmuted ones, mutedBy names in GET /alerts/groups.",
+    level_note="'Empty field' = field absent. Instants outside the grids and zones outside the seven listed are not explored.",
+    assumptions=E4_ASSUME + ["zone offsets come from the tz database shipped in the image (/usr/share/zoneinfo)"],
+    units=[dict(pkg="timeinterval", test="TestVerifC15", shards_quick=16, shards_thorough=16, budget_quick=100, budget_thorough=1500)],
+)
